@@ -18,7 +18,7 @@ Require Import List ZArith Bool Reals.
 From Flocq Require Import Core BinarySingleNaN.
 From Dasp Require Import Base.Res Base.Float Sample.Rint Sample.ConvSpec Sample.SampleFmt Sample.SampleOps
   Sample.SampleOpsProofs Sample.SampleOpsFloatProofs Sample.SampleOpsWideLemmas Sample.SampleOpsWideProofs Frame.Frame Frame.FrameProofs Frame.FrameOps Frame.FrameOpsProofs
-  Frame.FrameExamples Frame.ChanIter Frame.ChanIterProofs.
+  Frame.FrameExamples Frame.ChanIter Frame.ChanIterProofs Frame.FrameMut Frame.FrameMutProofs.
 From DaspGen Require Import FormatTable ConvGen SampleTable.
 Import ListNotations.
 Open Scope Z_scope.
@@ -295,7 +295,8 @@ Proof. intros A. exact (@channels_spec A). Qed.
 Print Assumptions c03_channels.
 
 (* channel iteration under ANY script of iterator steps (next, nth k, skip k + next, step_by k + take t, count,
-   last, len) applied to ONE `channels()` iterator: every step observes, and the iterator is left with, exactly
+   last, len, and clone-then-next/len on the clone, which must continue from the original's position and leave the
+   original alone) applied to ONE `channels()` iterator: every step observes, and the iterator is left with, exactly
    what a list iterator over the frame's channels gives ([run_script_list]: nth k = the k-th remaining channel and
    drops k+1, count/last drain, ...).  The provided methods of core::iter are modelled as core defines them from
    next(), and run through the model of the crate's next(); an `nth` that treated k as an absolute index would
@@ -320,6 +321,34 @@ Theorem c03_channel_idx : forall (A : Type) (fr : list A) (idx : nat),
   channel fr idx = nth_error fr idx /\ ((length fr <= idx)%nat -> channel fr idx = None).
 Proof. intros A fr idx. split; [reflexivity|]. intros H. now apply nth_error_None. Qed.
 Print Assumptions c03_channel_idx.
+
+(* ---------------- indexing through the mutable / unchecked accessors (Frame/FrameMut.v) ---------------- *)
+
+(* channel_mut(idx) is Some exactly when channel(idx) is; a write through it makes channel(idx) read the new value and
+   leaves every other channel and the channel count alone; None leaves the frame untouched.  Inside the bounds the
+   unchecked accessors (get_unchecked / get_unchecked_mut: UB out of range) hit no UB and do the same. *)
+Theorem c03_channel_mut : forall (A : Type) (fr : list A) (idx : nat) (v : A),
+  (fst (channel_mut_write fr idx v) = (match channel fr idx with Some _ => true | None => false end) /\
+   length (snd (channel_mut_write fr idx v)) = length fr /\
+   (forall j, channel (snd (channel_mut_write fr idx v)) j =
+              if (idx =? j)%nat && (idx <? length fr)%nat then Some v else channel fr j) /\
+   (channel fr idx = None -> snd (channel_mut_write fr idx v) = fr)) /\
+  ((idx < length fr)%nat ->
+   (exists x, get_unchecked fr idx = Ok x /\ channel fr idx = Some x) /\
+   channel_unchecked_mut_write fr idx v = Ok (snd (channel_mut_write fr idx v))).
+Proof. exact channel_mut_all. Qed.
+Print Assumptions c03_channel_mut.
+
+(* writing a list of new values through channels_mut() (front to back) / channels_mut().rev() (back to front):
+   channel j takes news[j] for j < min(len news, N) (resp. the last channels, last first), the others keep theirs *)
+Theorem c03_channels_mut_write : forall (A : Type) (news fr : list A),
+  (length (overwrite news fr) = length fr /\
+   forall j, channel (overwrite news fr) j =
+             if (j <? length news)%nat && (j <? length fr)%nat then nth_error news j else channel fr j) /\
+  overwrite news fr = (firstn (length fr) news ++ skipn (length news) fr)%list /\
+  overwrite_back news fr = (firstn (length fr - length news) fr ++ rev (firstn (length fr) news))%list.
+Proof. exact channels_mut_write_all. Qed.
+Print Assumptions c03_channels_mut_write.
 
 (* ---------------- a bare sample behaves as the 1-channel frame of that sample ---------------- *)
 
@@ -358,3 +387,12 @@ Proof.
   - apply mono_channel_eq.
 Qed.
 Print Assumptions c03_mono_frame.
+
+(* ... and its mutable accessors and channel count are those of the 1-channel frame [s] *)
+Theorem c03_mono_mut : forall (A : Type) (s v : A) (idx : nat) (news : list A),
+  mono_channel_mut_write s idx v = (fst (channel_mut_write [s] idx v), hd s (snd (channel_mut_write [s] idx v))) /\
+  rmap (fun x => [x]) (mono_channel_unchecked_mut_write s 0 v) = channel_unchecked_mut_write [s] 0 v /\
+  [mono_overwrite news s] = overwrite news [s] /\ [mono_overwrite news s] = overwrite_back news [s] /\
+  mono_num_channels = num_channels (length [s]).
+Proof. exact mono_mut_all. Qed.
+Print Assumptions c03_mono_mut.
